@@ -42,6 +42,15 @@ PAR = ["RModel.Par.hinv_step", "RModel.Par.hvariant_decreases", "RModel.Par.hno_
        "RModel.Facts.skeletonParHeapOr_pinned", "RModel.Facts.skeletonParAnd_pinned", "RModel.Facts.skeletonParOr_pinned",
        "RModel.Facts.skeletonAppender_pinned", "RModel.Facts.skeletonParOr64_pinned"]
 
+# the byte-input layer under every decoder (internal/byte_input.go): ByteInputAdapter over any chunked reader = ByteBuffer
+BI = "RModel.Impl.ByteIn."
+BYTEIN = [BI + n for n in ["read_contract", "readFull_spec", "adapter_step_spec", "buf_step_spec", "buf_step_wf",
+                           "adapter_refines_buf", "adapter_refines_buf_from", "adapter_refines_buf_errAt", "prog_adapter_eq_buf",
+                           "buf_fail_spec", "adapter_fail_spec", "adapter_after_fail", "next_spec", "skip_spec", "skip_short",
+                           "u32_spec", "u16_spec", "takeN_buf", "takeN_adapter", "rd32_buf", "rd32_adapter", "rd16_buf", "rd16_adapter"]]
+BYTEIN_DEC = [BI + n for n in ["decodeProg_runList", "decode_via_buf", "decode_via_adapter", "decode_consumed"]]
+BYTEIN_DEC64 = [BI + n for n in ["progS_adapter_sim", "readFrom64_eq_decode64", "fromUnsafe64_eq_decode64"]]
+
 L1_ALGEBRA = ["RModel.BSet.mem_combine", "RModel.BSet.canon_combine", "RModel.BSet.canon_ext",
               "RModel.BSet.mem_union", "RModel.BSet.mem_inter", "RModel.BSet.mem_xor", "RModel.BSet.mem_diff",
               "RModel.BSet.canon_union", "RModel.BSet.canon_inter", "RModel.BSet.canon_xor", "RModel.BSet.canon_diff"]
@@ -141,11 +150,11 @@ PROPS = {
             "owns": {"it", "rit", "mit", "uit", "reinit", "hasnext", "next?", "next!", "peek?", "peek!", "adv", "advrel", "many",
                      "manyhs", "drain", "iterate", "values", "backward", "unset", "ranges", "seqlate", "l2it", "l2reinit",
                      "l2iterate", "l2seq", "l2ranges", "l2it64", "l2reit64", "hasnext64", "next64", "peek64", "adv64", "many64", "drain64"}},
-    "C05": {"suites": [("ser", 1.0), ("thresh", 1.0), ("serall", 1.0)],
+    "C05": {"suites": [("ser", 1.0), ("thresh", 1.0), ("serall", 1.0), ("bytein", 1.0)],
             "theorems": ["RModel.Impl.encode_length", "RModel.Impl.decode_encode", "RModel.Impl.prefix_rejected",
-                         "RModel.Impl.decode_no_panic", "RModel.Impl.roundtrip_wf", "RModel.BSet.canon_ext"] + F_SERIAL,
-            "modules": DEFAULT_MODULES + [FACTS, "RProofs.Properties.C05"],
-            "owns": {"ser", "rd", "rdfail", "wrfail", "wrfailall", "rdsplit", "trunc", "wf", "dig", "add", "or", "mkrepr", "card", "addstride"}},
+                         "RModel.Impl.decode_no_panic", "RModel.Impl.roundtrip_wf", "RModel.BSet.canon_ext"] + F_SERIAL + BYTEIN + BYTEIN_DEC,
+            "modules": DEFAULT_MODULES + [FACTS, "RProofs.Properties.C05", "RProofs.ByteInput", "RProofs.ByteInputDecode"],
+            "owns": {"ser", "rd", "rdfail", "wrfail", "wrfailall", "rdsplit", "trunc", "wf", "dig", "add", "or", "mkrepr", "card", "addstride", "bytein"}},
     "C06": {"suites": [("spec", 1.0)],
             "theorems": ["RModel.FormatSpec.encode_conforms", "RModel.FormatSpec.conformant_decodes", "RModel.BSet.canon_ext"] + F_SERIAL,
             "modules": DEFAULT_MODULES + [FACTS, "RProofs.Properties.C06"], "owns": {"spec", "ser", "card", "toarr"}},
@@ -171,11 +180,14 @@ PROPS = {
             "owns_fn": lambda op, mm, suite: op in ("wf", "kernwf", "l2op", "l2mut", "l2iop", "l2off", "l2sflip", "l2fromdense") or (op in ("rd", "fview") and "invalid:" in mm.get("got", ""))
             or (op in AGG_OPS and "valid=no" in mm.get("got", "")),
             "owns": {"wf", "kernwf"}},
-    "C10": {"suites": [("fuzzdec", 1.0), ("fuzzfrozen", 0.5)], "corpus": ["corpus/C10/frozen-bitmap4096.txt"],
+    "C10": {"suites": [("fuzzdec", 1.0), ("fuzzfrozen", 0.5), ("bytein", 0.5)], "corpus": ["corpus/C10/frozen-bitmap4096.txt"],
             "theorems": ["RModel.Impl.decode_no_panic", "RModel.Impl.prefix_rejected", "RModel.Impl.decode_shape",
                          "RModel.Impl.decoded_valid_is_wf", "RModel.Impl.validate_implies_wf_of_decoded",
-                         "RModel.Impl.frozenView_no_panic", "RModel.BSet.canon_ext"] + F_SERIAL,
-            "modules": DEFAULT_MODULES + [FACTS, "RProofs.Properties.C09", "RProofs.Properties.C05", "RProofs.Properties.C13"], "owns": None},
+                         "RModel.Impl.frozenView_no_panic", "RModel.BSet.canon_ext"] + F_SERIAL +
+                        [BI + n for n in ["adapter_refines_buf", "adapter_refines_buf_errAt", "prog_adapter_eq_buf", "buf_step_wf",
+                                          "adapter_fail_spec", "buf_fail_spec", "decode_via_buf", "decode_via_adapter"]],
+            "modules": DEFAULT_MODULES + [FACTS, "RProofs.Properties.C09", "RProofs.Properties.C05", "RProofs.Properties.C13",
+                                          "RProofs.ByteInput", "RProofs.ByteInputDecode"], "owns": None},
     "C11": {"suites": [("agg", 1.0), ("kernspecial", 0.6), ("l2agg", 0.7), ("l2par", 0.5), ("l2bulk", 0.5)], "theorems": L1_AGG + L1_ALGEBRA + L2_AGG + PINS + L2_PAR[:8] + L2_BULK_HEAP,
             "modules": DEFAULT_MODULES + ["RProofs.Agg", "RProofs.LazyOps", PINS_MOD, "RProofs.ParData", "RProofs.RepBulk"], "owns": set(AGG_OPS) | {"kern", "l2agg", "l2lazy", "l2par", "aggmany", "l2heap"}},
     # C12: schedule independence / termination / no leak (sched), concurrent decoding through the pools (concdec); the
@@ -213,8 +225,9 @@ PROPS = {
                          "RModel.Impl.decode_encode", "RModel.Impl.prefix_rejected", "RModel.Impl.decode_no_panic",
                          "RModel.Impl.Rep64.encode_length", "RModel.Impl.decode64_encode", "RModel.Impl.decode64_prefix_rejected",
                          "RModel.Impl.decode64_no_panic", "RModel.FormatSpec.encode64_conforms", "RModel.Impl.decoded_valid_is_wf64",
-                         "RModel.Impl.decode64_bucket_bound", "RModel.Impl.roundtrip_wf64"],
-            "modules": DEFAULT_MODULES + [FACTS, "RProofs.Properties.C05", "RProofs.Serial64"], "owns": None},
+                         "RModel.Impl.decode64_bucket_bound", "RModel.Impl.roundtrip_wf64"] +
+                        [BI + "readFull_spec", BI + "adapter_refines_buf_from"] + BYTEIN_DEC64,
+            "modules": DEFAULT_MODULES + [FACTS, "RProofs.Properties.C05", "RProofs.Serial64", "RProofs.ByteInputDecode64"], "owns": None},
     "C19": {"suites": [("bsi", 1.0)], "corpus": ["corpus/bsi/F02_marshal_sign.txt", "corpus/bsi/F14_unmarshal_reused_receiver.txt"],
             "theorems": ["RModel.BSI.wf_new", "RModel.BSI.wf_setValue", "RModel.BSI.get_set_same", "RModel.BSI.get_set_other",
                          "RModel.BSI.exists_set", "RModel.BSI.get_foldl_setValue", "RModel.BSI.wf_foldl_setValue",
@@ -239,7 +252,7 @@ PROPS = {
             "modules": ["RProofs.Facts.Bits", "RProofs.BSI", "RProofs.BSI32", "RProofs.BSI64Ops", "RProofs.BSI64Big"], "owns": None},
 }
 
-HOOK_COMMITS = ["ad703f4", "ff7f62c", "c535057", "a3657c9"]
+HOOK_COMMITS = ["ad703f4", "ff7f62c", "c535057", "a3657c9", "ae1381d"]
 NOT_YET = {}
 DEFAULT_LEVEL_TEXT = ("Theorems (Lean 4 kernel-checked, unbounded) give the meaning of every operation of the executable oracle in terms of "
                       "membership, and uniqueness of canonical forms; the real Go code is tied to that proved oracle by a correspondence "
